@@ -907,6 +907,16 @@ def r3_kernel_helpers(ctx):
                 got = "%s (loops %s, buffer %s)" % (repr(s_)[:80], [ends.get(v_) for v_ in ti], [str(z_) for z_ in ex2.allocs.get(s_.target.hid, [])])
         except (ValueError, KeyError, IndexError):
             pass
+    # one way through the function: the copy loop is what every call executes (a second, "special case" path would need its own proof)
+    try:
+        E3 = e6.Exec(c, fn2)
+        live3 = [p_ for p_ in E3.run_fn() if p_.exit is None or p_.exit[0] == "return"]
+        one = len(live3) == 1 and not live3[0].pc
+        why3 = "%d result paths; conditions: %s" % (len(live3), "; ".join(e6.show(t_, 2) for p_ in live3 for (t_, _) in p_.pc)[:120])
+    except Unestablished as u_:
+        one, why3 = False, str(u_.what)[:120]
+    ctx.check("R01.3", "rearrange:one-unconditional-result", one, "rearrange-paths:" + short(why3, 60), c.loc(fn2), "one result path, no case split",
+              "Convolution::rearrange: %s; the axis swap must be what every call computes" % why3)
     ctx.check("R01.3", "rearrange:swaps-filter-and-channel-axes", ok2, "rearrange-form:" + short(got, 90), c.loc(fn2), "out[c][f][h][w] = kernels[f][c][h][w] over all f, c, h, w")
     # both are used (once each) by backward
     bf = ctx.fn("convolution::Convolution::backward")
